@@ -86,6 +86,7 @@ MUTANTS: Dict[str, List[M]] = {
         ("TYPE_CHECKING blocks executed under a narrow handler", "_postponed_annotations.py", "                exec(compile(ast_exec, filename=\"<ast>\", mode=\"exec\"), self.aliases, self.aliases)\n            except Exception as ex:", "                exec(compile(ast_exec, filename=\"<ast>\", mode=\"exec\"), self.aliases, self.aliases)\n            except (NameError, ImportError) as ex:", "C03.R8"),
         ("Path probes text with a NUL", "_util.py", "            if isinstance(path, str) and \"\\0\" in path:\n                raise PathError(f\"Path contains a null byte: {path!r}\")\n", "", "C03.R11"),
         ("jsonnet ValueError not converted", "_jsonnet.py", "        except (RuntimeError, ValueError) as ex:\n            raise argument_error(f'Problems evaluating jsonnet", "        except RuntimeError as ex:\n            raise argument_error(f'Problems evaluating jsonnet", "C03.R11"),
+        ("config-file key stored unchecked", "_core.py", "        elif isinstance(action, ActionConfigFile):\n            if value is not None and not isinstance(value, list):\n                raise TypeError(f'Parser key \"{key}\": expected the list of loaded config files, got: {value!r}')\n", "", "C03.R9"),
         ("subcommand parser does not inherit exit_on_error", "_actions.py", "        parser.exit_on_error = self.parent_parser.exit_on_error\n", "", "C03.R3"),
         ("ActionTypeHint no longer converts ValueError", "_typehints.py", "            except (TypeError, ValueError) as ex:\n                if self._is_valid_string(val):", "            except TypeError as ex:\n                if self._is_valid_string(val):", "C03.R4"),
     ],
@@ -125,6 +126,8 @@ MUTANTS: Dict[str, List[M]] = {
         ("Dict arm writes in place", "_typehints.py", "        else:\n            val = val.copy()\n        if subtypehints is not None:\n            if subtypehints[0] == int:", "        if subtypehints is not None:\n            if subtypehints[0] == int:", "C08.a"),
     ],
     "C09": [
+        ("config files are parsed while a print_config request can be served", "_actions.py", "), skip_apply_links(), _ActionPrintConfig.skip_print_config():", "), skip_apply_links():", "C09.b"),
+        ("print_config request survives --help", "_core.py", "        except SystemExit:\n            _ActionPrintConfig.discard_print_config_request(self)\n            raise\n", "", "C09.b"),
         ("shared skip set grows", "_typehints.py", '            kwargs["skip"] = {*kwargs.get("skip", set()), skip_args}', '            kwargs.setdefault("skip", set()).add(skip_args)', "C09.c"),
         ("dataclass default stored in the action's dict", "_typehints.py", '            sub_add_kwargs = {**sub_add_kwargs, "default": prev_val}', '            sub_add_kwargs["default"] = prev_val', "C09.c"),
         ("parser_context reset not in finally", "_common.py", "    try:\n        yield\n    finally:\n        for context_var, token in context_var_tokens:\n            context_var.reset(token)", "    yield\n    for context_var, token in context_var_tokens:\n        context_var.reset(token)", "C09.a"),
